@@ -540,6 +540,40 @@ func nearMiss(cfg *RunCfg, n string) (string, string) {
 	}
 }
 
+// wireTokens: byte classes a service-method string may carry on the wire that are not part of
+// any mapped name: URI punctuation, escapes, blanks, control bytes, dot elements, non-ASCII.
+var wireTokens = []string{"?", "?x=1", "?/../other", "#", "#frag", "&", "&a=b", "=", "%", "%2f", "%2F", "%5f", "%00",
+	" ", "\t", "\n", "\x00", "\x7f", ".", "..", "/..", "/.", "//", "/", "\\", ";", ";v=1", ":", "@", "+", "-", "~", "*", "!",
+	"$", ",", "'", "\"", "(", ")", "[", "]", "{", "}", "<", ">", "|", "^", "`", "\u00e9", "\u4e16", "\xff", "\xc3"}
+
+// wireMiss builds a near miss from a registered name by appending (mode 0), prepending (1) or
+// inserting (2) a wire token, or (3) by percent-escaping one of the name's own bytes.
+func wireMiss(cfg *RunCfg, n string, tok string, mode int) (string, string) {
+	r := cfg.Rng
+	switch mode {
+	case 0:
+		return n + tok, "wire-append"
+	case 1:
+		return tok + n, "wire-prepend"
+	case 2:
+		i := 0
+		if len(n) > 0 {
+			i = r.Intn(len(n) + 1)
+		}
+		return n[:i] + tok + n[i:], "wire-insert"
+	default:
+		if len(n) == 0 {
+			return "%", "wire-escape"
+		}
+		i := r.Intn(len(n))
+		f := "%%%02x"
+		if r.Intn(2) == 0 {
+			f = "%%%02X"
+		}
+		return n[:i] + fmt.Sprintf(f, n[i]) + n[i+1:], "wire-escape"
+	}
+}
+
 const randAlphabet = "abgtxyzABGXYZ019_/."
 
 func randName(cfg *RunCfg) string {
@@ -724,6 +758,31 @@ func routeBatch(cfg *RunCfg, st *Stats, w *CaseWriter, distinct DistinctSet, ind
 				if r.Intn(4) == 0 {
 					qs = append(qs, query{other(e.ns), m, cls + "+other-ns"})
 				}
+			}
+			if !full {
+				for j := 0; j < 4; j++ {
+					m, cls := wireMiss(cfg, e.name, wireTokens[r.Intn(len(wireTokens))], r.Intn(4))
+					qs = append(qs, query{e.ns, m, cls})
+					if r.Intn(4) == 0 {
+						qs = append(qs, query{other(e.ns), m, cls + "+other-ns"})
+					}
+				}
+			}
+		}
+		// one registered CALL name and one registered PUSH name per batch: every wire token
+		// appended, and once more in a random position
+		swept := map[string]bool{}
+		for _, pi := range perm {
+			e := entries[pi]
+			if swept[e.ns] || e.name == "" {
+				continue
+			}
+			swept[e.ns] = true
+			for _, tok := range wireTokens {
+				m, cls := wireMiss(cfg, e.name, tok, 0)
+				qs = append(qs, query{e.ns, m, cls + "-sweep"})
+				m, cls = wireMiss(cfg, e.name, tok, 1+r.Intn(2))
+				qs = append(qs, query{e.ns, m, cls + "-sweep"})
 			}
 		}
 	}
